@@ -104,3 +104,16 @@ mod tests {
     assert_eq!(capture.string(), "");
   }
 }
+
+#[cfg(feature = "verif")]
+impl OutputStream {
+  /// Verification hook: an output stream over a caller supplied writer.
+  pub(crate) fn verif_new(stream: Box<dyn Write>, active: bool) -> OutputStream {
+    Self {
+      active,
+      stream,
+      style: false,
+      term: false,
+    }
+  }
+}
